@@ -42,6 +42,8 @@ def attribute(ev, cl, tags, trace):
     """set of property ids a failing clause `cl` of event `ev` is evidence against"""
     op = ev["op"]
     kind = trace.get("kind", "")
+    if kind == "userfcn":
+        return {"C17"}
     if cl == "budget":
         return set()
     if cl == "wf":
